@@ -662,6 +662,9 @@ func literalSemantics(res *report.Result, o *onto.Onto) {
 	}
 	// booleans
 	for _, b := range []bool{true, false} {
+		if o.Props["Toot/discoverable"] == nil {
+			break // vocabulary not loaded (extension runs)
+		}
 		p, doc := get("Person", "discoverable", b, "TootDiscoverable")
 		res.Case(fmt.Sprintf("bool|%v", b))
 		if p == nil || !method(p, "IsXMLSchemaBoolean").Call(nil)[0].Bool() {
